@@ -493,7 +493,7 @@ func runOblig(o *Oblig, tier string) *ObligResult {
 		}
 		path := writeReplay(o, tier, tc, v)
 		res.ReplayFiles = append(res.ReplayFiles, path)
-		if o.Native && res.NativeReplays < 2 {
+		if o.Native && res.NativeReplays < 2 && v.Kind != "alloc" { // an allocation above the harness limit is not a native crash
 			ok, outp := nativeReplay(o, path, v.Kind == "deadlock")
 			res.NativeReplays++
 			if ok {
